@@ -279,6 +279,10 @@ def _stable_name(n):
     into one name per function, so harmless refactorings do not change the baseline."""
     import re
     n = re.sub(r"\[.*\]\.", ".", n)
+    # E2 wrapper names: drop the configuration (width/container/order/backing/enum type) and counts
+    n = re.sub(r"^((?:read|write)_[a-z]+)_[A-Za-z0-9]+_w\d+_c\d+_[A-Za-z]+_[a-z]+\.", r"\1.", n)
+    n = re.sub(r"^(write_bcdwide)_w\d+_c\d+_[A-Za-z]+_[a-z]+\.", r"\1.", n)
+    n = re.sub(r"\.(trap|bounds|flag|unwind)(\[\d+\]|:.*)$", r".\1", n)
     n = re.sub(r"\.[A-Za-z_0-9]+\.(assert|call-pre|no-raise)$", ".code-obligations", n)
     n = re.sub(r"\.(assert|call-pre|no-raise)$", ".code-obligations", n)
     return n
